@@ -70,6 +70,10 @@ def extract(root, crate_name, config='base', use_cache=True):
     try:
         if use_cache and os.path.exists(out) and os.path.getsize(out) > 0:
             info['cached'] = True
+            try:
+                os.utime(out, None)      # keep recently used fact files away from the pruning
+            except OSError:
+                pass
             return out, info
         t0 = time.time()
         tdir = tempfile.mkdtemp(prefix='tgt-', dir=WORK)
@@ -111,16 +115,28 @@ def extract(root, crate_name, config='base', use_cache=True):
         lock.close()
 
 
-def _gc_cache(keep, max_files=40):
+def _gc_cache(keep, max_files=60):
+    """best-effort pruning of old fact files; several checks may run concurrently, so every step
+    tolerates files vanishing underneath it"""
     d = os.path.join(WORK, 'cache')
-    files = [os.path.join(d, f) for f in os.listdir(d) if f.endswith('.json')]
-    if len(files) <= max_files:
-        return
-    files.sort(key=lambda p: os.path.getmtime(p))
-    for p in files[:len(files) - max_files]:
-        if p != keep:
-            try:
-                os.remove(p)
-                os.remove(os.path.join(d, '.lock-' + os.path.basename(p)[:-5]))
-            except OSError:
-                pass
+    try:
+        files = []
+        for f in os.listdir(d):
+            if f.endswith('.json'):
+                p = os.path.join(d, f)
+                try:
+                    files.append((os.path.getmtime(p), p))
+                except OSError:
+                    pass
+        if len(files) <= max_files:
+            return
+        files.sort()
+        for _, p in files[:len(files) - max_files]:
+            if p != keep:
+                for q in (p, os.path.join(d, '.lock-' + os.path.basename(p)[:-5])):
+                    try:
+                        os.remove(q)
+                    except OSError:
+                        pass
+    except OSError:
+        pass
